@@ -59,6 +59,6 @@ def ofList (l : List (List Int × Entry)) : Table :=
 
 /-- The whole row of next-token log-probabilities for a vocabulary of size `V`. -/
 def row (tbl : Table) (V : Nat) (ctx : List Int) : List (Option Rat) :=
-  (List.range V).map (fun w => bo tbl (w : Int) ctx)
+  (List.range V).map (fun w => bo tbl (Int.ofNat w) ctx)
 
 end PdtVerif.Backoff
